@@ -76,6 +76,19 @@ Proof. exact seeder_from_connection. Qed.
 Example C02_seeder_nonvacuous : Cur (fun x => x) lx_cf 1 lx_content lx_m lx_s 0 /\ still_missing lx_m = N.of_nat 2.
 Proof. exact live_nonvacuous. Qed.
 
+(* WHERE THE FULL STATEMENT FAILS (known finding sole-holder-idle-after-reserver-left), in the model: four legitimate
+   steps (every pick one the chooser can make) lead to a manager state in which piece 8 is Missing again, its only
+   remaining holder is connected, and nothing will ever ask it: we are not interested in it, it holds no assignment,
+   it chokes us, and re-evaluation happens only on its own events *)
+Theorem C02_refuted_sole_holder_left_idle :
+  match sh_run with
+  | Ok m => nthN (m_status m) 8 = Some Missing /\
+            exists p, m_peers m = [(2, p)] /\ nth 8 (p_pieces p) false = true /\
+                      p_am_interested p = false /\ p_piece_index p = None /\ p_choked p = true
+  | _ => False
+  end.
+Proof. exact sole_holder_left_idle. Qed.
+
 (* no waiting for an Unchoke that will not come: a peer that does not choke us, holds no assignment, and announces a
    piece we miss is asked for it in the same exchange *)
 Theorem C02_idle_announcer_asked : forall m a i pick p st m' r bc sp,
@@ -115,3 +128,4 @@ Print Assumptions C02_assigned_piece_completes.
 Print Assumptions C02_seeder_download_completes.
 Print Assumptions C02_seeder_any_chooser.
 Print Assumptions C02_seeder_from_connection.
+Print Assumptions C02_refuted_sole_holder_left_idle.
